@@ -890,7 +890,7 @@ pub fn run(ctx: &mut Ctx) {
         r
     });
 
-    let nb = ctx.tier.pick(40usize, 600usize);
+    let nb = ctx.tier.pick(40usize, 4000usize);
     let bursts: Vec<Burst> = (0..nb).map(|i| Burst { server: i % 3 == 1, gpu: i % 3 == 2, n: 3 + (i % 6) as u8, read_chunk: ((i * 31 + ctx.seed as usize) % 97) as u8 }).collect();
     ctx.enumerate("sender_bursts", bursts, |ctx, b| {
         let r = run_burst(ctx, b);
